@@ -30,8 +30,9 @@ fn split(vals: &[String], d: Option<char>) -> Vec<Vec<u8>> {
     let mut out = Vec::new();
     for v in vals {
         match d {
-            Some(d) if v.contains(d) => out.extend(v.split(d).map(|p| p.as_bytes().to_vec())),
-            _ => out.push(v.as_bytes().to_vec()),
+            // (U+E000 in a described value stands for the byte 0xFF)
+            Some(d) if v.contains(d) => out.extend(v.split(d).map(vmodel::env_bytes)),
+            _ => out.push(vmodel::env_bytes(v)),
         }
     }
     out
@@ -128,7 +129,10 @@ fn add_sources(t: &mut Tape<'_>, c: &mut CmdSpec, depth: usize) {
             a.default_missing_values = if a.default_missing_values.is_empty() { vec![] } else { vec!["3".into()] };
         }
         let typed = matches!(a.parser, ParserSpec::I64 { .. });
-        if takes && !positional && t.chance(2, 5) {
+        if takes && !positional && !typed && a.parser == ParserSpec::OsStr && t.chance(1, 6) {
+            // an environment value that is not UTF-8, for an argument that takes OS strings
+            a.env = Some((format!("VERIF_C06_{}_{}", depth, id.to_uppercase()), Some("e\u{e000}x".to_owned())));
+        } else if takes && !positional && t.chance(2, 5) {
             let val = match t.weighted(&[2, 5, 1, 1, 1]) {
                 0 => None,
                 1 => Some(if typed { "5".to_owned() } else { "envv".to_owned() }),
